@@ -364,12 +364,29 @@ pub fn check_c16(ctx: &Ctx, known: &KnownFindings) -> Report {
         rep.stats.class("many-live-threads:70");
         rep.direct("70 live threads", r, &ks);
     }
+    // 300 short-lived threads each fail once while one early thread keeps (and re-reads) its description
+    {
+        let r = catch(|| -> PResult {
+            let mut keeper = Arena::new(1);
+            keeper.run(&[(0, 4), (0, FAIL_KINDS)])?;
+            for batch in 0..10 {
+                let mut a = Arena::new(30);
+                let sched: Vec<(usize, usize)> = (0..30).map(|t| (t, (t + batch) % 4)).collect();
+                a.run(&sched)?;
+                drop(a);
+                keeper.run(&[(0, FAIL_KINDS)])?;
+            }
+            keeper.run(&[(0, FAIL_KINDS)]).map(|_| ())
+        });
+        rep.stats.class("short-lived-threads:300");
+        rep.direct("300 short-lived failing threads", r, &ks);
+    }
     let prop = (200usize, c16_case);
     let r = drive(&prop, ctx.cases(20_000, 400_000), ctx, 16, &ks);
     rep.absorb(r);
-    rep.rule = "schedules = sequences of (thread, fail_k | read) executed exactly: each schedule thread is an OS thread that performs one table call per command received over a channel and replies before the next command is issued (the harness owns the interleaving). fail_k are seven table calls failing with seven distinct descriptions (raw_name_from_str x4, add_to_answer, add_to_question, rename_with_raw_names); read = error_description(err) with that thread's err pointer. Oracle: model of per-thread last failure (descriptions taken from the native API); every read returns it. Exhaustive for 2 threads x 2 failure kinds x read up to the stated length; random for 3-4 threads, length <= 40, packet-level failures on the thread's own packet or on one of two packets handed between the threads; one deterministic schedule with 70 live threads. Non-trivial: a read whose thread's last failure precedes a failure on another thread.".into();
+    rep.rule = "schedules = sequences of (thread, fail_k | read) executed exactly: each schedule thread is an OS thread that performs one table call per command received over a channel and replies before the next command is issued (the harness owns the interleaving). fail_k are seven table calls failing with seven distinct descriptions (raw_name_from_str x4, add_to_answer, add_to_question, rename_with_raw_names); read = error_description(err) with that thread's err pointer. Oracle: model of per-thread last failure (descriptions taken from the native API); every read returns it. Exhaustive for 2 threads x 2 failure kinds x read up to the stated length; random for 3-4 threads, length <= 40, packet-level failures on the thread's own packet or on one of two packets handed between the threads; one deterministic schedule with 70 live threads; one with 300 short-lived failing threads while an early thread keeps re-reading its description. Non-trivial: a read whose thread's last failure precedes a failure on another thread.".into();
     rep.assumptions = vec!["interleavings are explored at the granularity of whole table calls (the property's own granularity); interleavings inside throw_err are not".into(), "a read before the thread's first failure is not judged (err pointer still NULL)".into()];
-    rep.require(&["exhaustive-schedules", "threads:3", "threads:4", "read-after-foreign-failure", "many-live-threads:70"]);
+    rep.require(&["exhaustive-schedules", "threads:3", "threads:4", "read-after-foreign-failure", "many-live-threads:70", "short-lived-threads:300"]);
     rep
 }
 
